@@ -383,10 +383,37 @@ def cold_unit(v, k, res):
     res.dims['cold import interleavings'] += 1
 
 
+def threadlocal_unit(res):
+    """the small bodies alone in the importing (main) thread and alone in a new thread, in a fresh interpreter
+    (mc/threadlocal.py): a result that depends on per-thread state set up at import differs between the two"""
+    import json
+    import os
+    import subprocess
+    env = dict(os.environ, PYTHONHASHSEED='0')
+    p = subprocess.run([sys.executable, '-m', 'mc.threadlocal'], cwd=common.VERIF, capture_output=True, text=True, timeout=600, env=env)
+    try:
+        out = json.loads(p.stdout.strip().splitlines()[-1])
+    except Exception:
+        raise HarnessError('thread-local driver failed: %s %s' % (p.stdout[-300:], p.stderr[-300:]))
+    res.evaluations += out['cases']
+    res.states += out['cases']
+    res.enumerated += out['cases']
+    res.transitions += 2 * out['cases']
+    res.validated += out['cases']
+    for d in out['diffs']:
+        res.violation('%s|depends-on-thread' % d['body'], 'v%s: %s alone in the thread that imported the library gives %r, alone in a new thread %r'
+                      % (d['v'], d['body'], d['main'], d['thread']), {'threadlocal': True}, 0)
+    res.dims['bodies compared between the importing thread and a new thread'] += out['cases']
+
+
 def run_unit(unit, tier):
     if unit[0] == 'cold':
         res = Result()
         cold_unit(unit[1], unit[2], res)
+        return res
+    if unit[0] == 'threadlocal':
+        res = Result()
+        threadlocal_unit(res)
         return res
     names, cfgs, bound, gran = unit[:4]
     shard = unit[4] if len(unit) > 4 else None
@@ -504,7 +531,7 @@ def compress(choices):
 def run(tier, seed, extra):
     hs = harnesses(tier)
     cold = [('cold', v, k) for v in (('2.5', '2.7', '2.3') if tier == 'quick' else common.VERSIONS) for k in ((0, 2, 5) if tier == 'quick' else range(6))]
-    hs = common.rotate(hs + cold, seed)
+    hs = common.rotate(hs + cold + [('threadlocal',)], seed)
     extra['bounds'] = {'threads': '2 (3 for small bodies)',
                        'preemption_bound': {'small x small': 2 if tier == 'quick' else '3 at line granularity, 2 at bytecode granularity', 'x medium': 1,
                                             'large': 0 if tier == 'quick' else 1, '3 threads': 1 if tier == 'quick' else 2},
@@ -518,6 +545,9 @@ def run(tier, seed, extra):
 
 
 def replay(point, res):
+    if point.get('threadlocal'):
+        threadlocal_unit(res)
+        return
     if 'cold' in point:
         cold_unit(point['cold'][0], point['cold'][1], res)
         return
